@@ -30,16 +30,18 @@ COQ_EXPLAIN = 'ZkSet.explain_case'
 SHARD = 120
 WORKERS = 6
 
-# Schedule families on which the unchanged code violates the property (see the final report / KNOWN_FINDINGS):
-#   g1  the data watch reports the path deleted while a change batch is queued or in progress (F22)
+# Schedule families on which the code as it is violates the property (open / listed findings):
 #   g2  a member whose read was skipped (vanished) is re-created before a children notification showed its absence
 #   g3  the path is deleted / re-created while a data-watch notification is still undelivered
-# A family is generated when its signature is listed in KNOWN_FINDINGS.json (then it is reported as
-# KNOWN-FINDING on every run) or when it is not named in C19_AVOID (env, comma separated; default below).
+# A family is generated when its signature is listed in KNOWN_FINDINGS.json (it is then reported as a
+# KNOWN-FINDING line on every run) or when C19_AVOID (env, comma separated) does not name it; by
+# default an unlisted family is not generated.  'g1' (F22: the data watch reports the path deleted while
+# the worker still has work) is no longer a family: it was fixed by d0a2403, the schedules are always
+# generated, and the pattern only names a violation (so that a regression is reported as F22).
 SIG = {'g1': 'stale-join-after-parent-delete',
        'g2': 'missed-join-after-vanish-recreate',
        'g3': 'path-flap-before-data-watch'}
-AVOID_DEFAULT = ('g1', 'g2', 'g3')
+AVOID_DEFAULT = ('g2', 'g3')
 
 
 def avoided():
@@ -49,18 +51,23 @@ def avoided():
   return set(g for g in AVOID_DEFAULT if C.known_match(PID, SIG[g]) is None)
 
 
-RULE = ('histories over 2-5 member names (some rejected by the member filter): (a) hand-written regressions, (b) state-covering '
-        'traces - breadth-first enumeration of a generator-side shadow of the mechanics over 2 names (+1 filtered), one shortest '
-        'history per distinct shadow state up to depth 8 (quick) / 12 (thorough), each driven to quiescence, (c) 800 (quick) / 13000 '
-        '(thorough) seeded random histories of 10-90 operations with creates/deletes, path deletion/re-creation/touch, deliveries and worker runs in any '
-        'order, members vanishing between listing and reading, raising callbacks, settling phases; schedule families g1/g2/g3 '
-        '(see SIG) are produced only when listed as known findings or requested with C19_AVOID; non-trivial = at least one '
-        'callback was delivered and a quiescent point was checked; distinct by canonical JSON of (case, observation)')
+RULE = ('histories over 2-5 member names (some rejected by the member filter): (a) hand-written regressions incl. F19/F20/F22, '
+        '(b) state-covering traces - breadth-first enumeration of a generator-side shadow of the mechanics over 2 names (+1 '
+        'filtered), one shortest history per distinct shadow state up to depth 8 (quick) / 12 (thorough), each driven to '
+        'quiescence, (c) 700 (quick) / 11000 (thorough) seeded random histories of 10-90 operations with creates/deletes, path '
+        'deletion/re-creation/touch, deliveries and worker runs in any order (worker starved, deliveries late, path churn modes), '
+        'members vanishing between listing and reading, raising callbacks, settling phases; streams (b),(c) stay outside the two '
+        'schedule families g2/g3 on which the code is known to fail; (d) for each family listed in KNOWN_FINDINGS.json (or '
+        'requested with C19_AVOID): hand-written reproducers, an unrestricted state cover (depth 8/10) and 250/3000 unrestricted '
+        'random histories; non-trivial = at least one callback was delivered and a quiescent point was checked; distinct by '
+        'canonical JSON of (case, observation)')
 TRUSTED = ['harness/c19_fakezk.py: in-process stand-in for the Kazoo client (one-shot watches as sets per path, registration only on '
            'success except exists, FIFO delivery of fired watch callbacks, reads see the tree at delivery/answer time); the real '
            'kazoo.recipe.watchers.DataWatch/ChildrenWatch (kazoo 2.11) run on it',
            'gevent scheduling: the harness greenlet yields only inside a work step, the worker parks inside FakeZk.get',
-           'monitor in harness/props/c19.py (consumer set, alternation, quiescence detection from harness-visible facts)']
+           'monitor in harness/props/c19.py (consumer set, alternation, quiescence detection from harness-visible facts; a listed '
+           'family names a violation only when it can explain it: g3 any consumer/tree difference until the data watch next '
+           'reports the deletion, g2 only the re-created members missing)']
 ASSUMPTIONS = ['member data is well-formed JSON with the fields Member.from_node requires (a malformed member makes the worker '
                'drop the whole batch: outside the property statement)',
                'one ZooKeeper session without connection loss: watch callbacks are delivered in the order they fired (Kazoo has one '
@@ -68,20 +75,21 @@ ASSUMPTIONS = ['member data is well-formed JSON with the fields Member.from_node
                'the notification worker may be delayed arbitrarily relative to watch callbacks (it is a separate greenlet; '
                'get_members() holding the callback blocker delays it in practice)',
                'consumer callbacks do not call back into the ServerSet and do not yield',
-               'C19_converges_partial / C19_alternation_partial are proved under the guards G1-G3 / G1 of Model/ZkSet.v; without them '
-               'the statements are refuted on the faithful model (C19_*_refuted) and reproduced on the code']
+               'C19_converges_partial is proved under the guards G2 and G3 of Model/ZkSet.v; without them the statement is refuted '
+               'on the faithful model (C19_converges_refuted*) and reproduced on the code (known findings '
+               'missed-join-after-vanish-recreate, path-flap-before-data-watch)']
 
 MANIFEST = {
     'text': ('Theorems over every label sequence (tree mutations, path deletion/re-creation, FIFO delivery of watch callbacks at any '
              'later time, worker runs with any read order, vanishing members, raising callbacks) of a Gallina model of ServerSet + the '
-             'Kazoo watch recipes: C19_callback_isolation (full strength), C19_converges_partial (consumer set = members present at '
-             'every quiescent state, under guards G1-G3), C19_alternation_partial (join/leave alternate per member, under G1), and '
-             'C19_converges_refuted / C19_alternation_refuted: machine-checked witnesses that the unguarded statements are false '
-             'of the code as it is (three schedule families, each reproduced on the real ServerSet). Model compared in lock step '
-             'with the real ServerSet + real Kazoo recipes over a fake client on every generated history.'),
+             'Kazoo watch recipes: C19_alternation and C19_callback_isolation at full strength; C19_converges_partial (consumer set = '
+             'members present at every quiescent state) under the schedule guards G2 and G3, with C19_converges_refuted*: '
+             'machine-checked witnesses that the unguarded statement is false of the code as it is (two schedule families, both '
+             'reproduced on the real ServerSet and listed as known findings). Model compared in lock step with the real ServerSet + '
+             'real Kazoo recipes over a fake client on every generated history.'),
     'note': ('Trusted: Coq kernel; fake Kazoo client and deterministic gevent scheduling of the harness; the monitor. The guards '
-             'G1-G3 delimit schedules on which the unchanged code violates the property (reported findings). All theorems closed '
-             'under the global context.'),
+             'G2/G3 delimit schedules on which the code violates the property (known findings). All theorems closed under the '
+             'global context.'),
     'technique': 'Coq invariants over a label-driven transition system + lock-step trace-driven correspondence on the real code',
     'design_ref': 'DESIGN.md section 5, C19',
 }
@@ -245,12 +253,19 @@ def monitor(case, obs):
   seen = set()
   pats = []
 
-  def flag(sym, msg):
+  g2_names = set()             # members re-created while their read had been skipped and no listing showed them absent
+
+  def flag(sym, msg, stale=(), missing=()):
+    # Naming only.  A listed family may name a violation only if it can explain it: g3 (deaf or half-deaf
+    # watch) any difference between consumer and tree, g2 only members of g2_names missing; neither
+    # explains a broken alternation, a filtered name or a changed notification sequence.
     sig = sym
-    for p in ('g1', 'g3', 'g2'):
-      if p in pats:
-        sig = SIG[p]
-        break
+    if sym == 'consumer-differs-from-tree' and 'g3' in pats:
+      sig = SIG['g3']
+    elif sym == 'consumer-differs-from-tree' and not stale and missing and set(missing) <= g2_names:
+      sig = SIG['g2']
+    elif sym in ('consumer-differs-from-tree', 'double-join', 'leave-without-join') and 'g1' in pats:
+      sig = SIG['g1']
     if sig not in seen:
       seen.add(sig)
       v.append((sig, msg))
@@ -261,6 +276,7 @@ def monitor(case, obs):
   skipped = set()              # members whose read found nothing and whose absence no later notification has shown
   prev = {'pending': [], 'cw': 0, 'parked': None, 'tree': None}
   checked = 0
+  data_saw_present = True      # what the DataWatch saw last (it calls the function only on a change)
   out_of_scope = avoided()
   for i, (op, st) in enumerate(zip(case['ops'], obs['steps'])):
     k = op[0]
@@ -270,8 +286,10 @@ def monitor(case, obs):
     # into the open finding and report that instead ---------------------------------------------
     if k in ('mkp', 'rmp') and st.get('eff') and 'data' in prev['pending'] and 'g3' not in pats:
       pats.append('g3')
-    if k == 'mk' and st.get('eff') and op[1] in skipped and 'g2' not in pats:
-      pats.append('g2')
+    if k == 'mk' and st.get('eff') and op[1] in skipped:
+      g2_names.add(op[1])
+      if 'g2' not in pats:
+        pats.append('g2')
     if (k == 'deliver' and st.get('kind') == 'data' and st['tree'] is None and started
             and (busy or prev['parked'] is not None) and 'g1' not in pats):
       pats.append('g1')
@@ -283,8 +301,15 @@ def monitor(case, obs):
       busy = True                                # a callback ran: it may have handed work to the worker
     if k in ('start', 'deliver') and st['cw'] > prev['cw']:
       skipped &= set(st['tree'] or [])           # get_children succeeded: the function was called with st['tree']
-    if k == 'deliver' and st.get('kind') == 'data' and st['tree'] is None:
-      skipped.clear()
+      g2_names &= set(st['tree'] or [])
+    if k == 'start' or (k == 'deliver' and st.get('kind') == 'data'):
+      if st['tree'] is None and data_saw_present:
+        # the data watch reports the deletion: known nodes are forgotten, every member will be reported
+        # leaving, a later creation starts a fresh children watch - earlier family patterns end here
+        skipped.clear()
+        g2_names.clear()
+        pats[:] = [p for p in pats if p == 'g1']
+      data_saw_present = st['tree'] is not None
     for n, found in st['reads']:
       if found:
         skipped.discard(n)
@@ -311,7 +336,8 @@ def monitor(case, obs):
       if consumer != want:
         flag('consumer-differs-from-tree',
              'step %d (%s): quiescent, consumer holds %s but the members present are %s (stale %s, missing %s)'
-             % (i, k, sorted(consumer), sorted(want), sorted(consumer - want), sorted(want - consumer)))
+             % (i, k, sorted(consumer), sorted(want), sorted(consumer - want), sorted(want - consumer)),
+             stale=consumer - want, missing=want - consumer)
     prev = st
   if 'noraise_events' in obs:
     a = [[e[0], e[1]] for s in obs['steps'] for e in s['ev']]
@@ -435,34 +461,42 @@ HAND = [
     {'kind': 'hand', 'name': 'late-create', 'ops': [S_, W_, ['mkp'], D_, ['mk', 0], D_, W_, W_, ['rmp'], D_, D_, ['mkp'], D_, W_, ['mk', 1], D_, W_, W_]},
     {'kind': 'hand', 'name': 'two-watches', 'ops': [['mkp'], S_, W_, ['rmp'], D_, ['mkp'], D_, D_, W_, ['mk', 0], D_, D_, W_, W_, ['rm', 0], D_, D_, W_]},
 ]
+F22_HAND = [   # F22 (fixed by d0a2403): the all-members-left notification must not overtake the worker
+    {'kind': 'hand', 'name': 'f22-stale-join', 'ops': [['mkp'], S_, ['mk', 0], ['mk', 1], D_, W_, W_, ['rmp'], D_, D_, W_, W_, W_]},
+    {'kind': 'hand', 'name': 'f22-double-join', 'ops': [['mkp'], S_, ['mk', 0], D_, ['rmp'], D_, D_, ['mkp'], ['mk', 0], D_, W_, W_, W_, W_]},
+    {'kind': 'hand', 'name': 'f22-queued-leave-then-all-removed', 'ops': [['mkp'], ['mk', 0], ['mk', 1], S_, W_, W_, W_, ['rm', 0], D_, ['rmp'], D_, D_, W_, W_]},
+]
 PATTERN_HAND = [
-    {'kind': 'pattern', 'pattern': 'g1', 'name': 'f22-stale-join', 'ops': [['mkp'], S_, ['mk', 0], ['mk', 1], D_, W_, W_, ['rmp'], D_, D_, W_, W_]},
-    {'kind': 'pattern', 'pattern': 'g1', 'name': 'f22-double-join', 'ops': [['mkp'], S_, ['mk', 0], D_, ['rmp'], D_, D_, ['mkp'], ['mk', 0], D_, W_, W_, W_]},
     {'kind': 'pattern', 'pattern': 'g2', 'name': 'vanish-recreate', 'ops': [['mkp'], S_, ['mk', 0], D_, ['rm', 0], W_, W_, ['mk', 0], D_, W_]},
     {'kind': 'pattern', 'pattern': 'g3', 'name': 'dead-watch', 'ops': [['mkp'], ['mk', 0], S_, W_, W_, ['rmp'], D_, ['mkp'], D_, W_, ['mk', 1], D_, W_]},
-    {'kind': 'pattern', 'pattern': 'g3', 'name': 'missed-absence', 'ops': [['mkp'], S_, ['rmp'], W_, D_, ['mkp'], ['mk', 0], D_, W_, W_, ['rmp'], D_, D_]},
+    {'kind': 'pattern', 'pattern': 'g3', 'name': 'missed-absence', 'ops': [['mkp'], S_, ['rmp'], W_, D_, ['mkp'], ['mk', 0], D_, W_, W_, ['rmp'], D_, D_, W_]},
 ]
 
 
 def gen_cases(tier, seed):
+  """Two streams: 'clean' histories stay outside the families g2/g3 (any violation there is new), and -
+  for every family that is listed as a known finding or explicitly requested - histories that may enter it."""
   avoid = avoided()
-  out = [dict(c) for c in HAND]
+  clean = set(AVOID_DEFAULT)
+  allowed = clean - avoid
+  out = [dict(c) for c in HAND + F22_HAND]
   quick = tier == 'quick'
   for names, filt, depth, limit in ([([0, 1], [], 8 if quick else 12, 700 if quick else 9000),
                                      ([0, 2], [2], 7 if quick else 9, 250 if quick else 2500)]):
-    for ops in _cover_traces(depth, avoid, names, filt, limit):
+    for ops in _cover_traces(depth, clean, names, filt, limit):
       out.append({'kind': 'cover', 'filtered': filt, 'ops': ops})
-  n = 800 if quick else 13000
+  n = 700 if quick else 11000
   for i in range(n):
-    out.append(_random_trace(C.case_rng(seed, PID, i), avoid))
-  if avoid != set(AVOID_DEFAULT):
-    allowed = set(AVOID_DEFAULT) - avoid
+    out.append(_random_trace(C.case_rng(seed, PID, i), clean))
+  if allowed:
     for c in PATTERN_HAND:
       if c['pattern'] in allowed:
         out.append(dict(c))
-    for i in range(150 if quick else 1500):
+    for ops in _cover_traces(8 if quick else 10, avoid, [0, 1], [], 300 if quick else 3000):
+      out.append({'kind': 'cover-families', 'filtered': [], 'ops': ops})
+    for i in range(250 if quick else 3000):
       c = _random_trace(C.case_rng(seed + 104729, PID, i), avoid)
-      c['kind'] = 'random-unrestricted'
+      c['kind'] = 'random-families'
       out.append(c)
   return out
 
@@ -471,10 +505,10 @@ def search_cases(tier, seed, diverging):
   """Used only when proof/correspondence broke and no monitor fired: a second, larger stream of histories."""
   out = []
   for i in range(3000):
-    c = _random_trace(C.case_rng(seed + 15485863, PID, i), avoided())
+    c = _random_trace(C.case_rng(seed + 15485863, PID, i), set(AVOID_DEFAULT))
     c['kind'] = 'search'
     out.append(c)
-  for ops in _cover_traces(9, avoided(), [0, 1], [], 4000):
+  for ops in _cover_traces(9, set(AVOID_DEFAULT), [0, 1], [], 4000):
     out.append({'kind': 'search', 'filtered': [], 'ops': ops})
   return out
 
